@@ -579,6 +579,100 @@ theorem filterIter_refines_walk (m : Mode) (ashape fshape : List Nat) (fp : Arra
     rw [filterIter_refines m ashape fshape fp hlen ha hf i hi' j hj]
     rfl
 
+/-! ### interface for the property models: which element is read -/
+
+namespace FilterIter
+
+theorem fixPos_length (m : Mode) : ∀ (s : List Nat) (q r : List Int),
+    q.length = s.length → fixPos m s q = some r → r.length = s.length := by
+  intro s
+  induction s with
+  | nil => intro q r _ h; cases q <;> simp [fixPos] at h <;> simp [h]
+  | cons d ds ih =>
+    intro q r hq h
+    cases q with
+    | nil => simp at hq
+    | cons x xs =>
+      simp only [fixPos] at h
+      cases h1 : fixOffset m x d <;> simp only [h1] at h
+      · cases h
+      · cases h2 : fixPos m ds xs <;> simp only [h2] at h
+        · cases h
+        · cases h
+          simp [ih xs _ (by simpa using hq) h2]
+
+theorem addPos_subPos : ∀ (p q : List Int), q.length = p.length → addPos p (subPos q p) = q := by
+  intro p
+  induction p with
+  | nil => intro q h; cases q <;> simp_all [addPos]
+  | cons a as ih =>
+    intro q h
+    cases q with
+    | nil => simp at h
+    | cons b bs =>
+      simp only [subPos, addPos, ih bs (by simpa using h)]
+      congr 1; omega
+
+theorem addPos_length : ∀ (p q : List Int), q.length = p.length → (addPos p q).length = p.length := by
+  intro p
+  induction p with
+  | nil => intro q h; cases q <;> simp_all [addPos]
+  | cons a as ih =>
+    intro q h
+    cases q with
+    | nil => simp at h
+    | cons b bs => simp [addPos, ih bs (by simpa using h)]
+
+theorem subPos_length : ∀ (p q : List Int), q.length = p.length → (subPos p q).length = p.length := by
+  intro p
+  induction p with
+  | nil => intro q h; cases q <;> simp_all [subPos]
+  | cons a as ih =>
+    intro q h
+    cases q with
+    | nil => simp at h
+    | cons b bs => simp [subPos, ih bs (by simpa using h)]
+
+/-- a flagged closed form is a flagged `fixPos` -/
+theorem closedForm_none (m : Mode) (ashape fshape : List Nat) (p k : List Int) :
+    closedForm m ashape fshape p k = none ↔
+      fixPos m ashape (addPos p (subPos k (centreOf fshape))) = none := by
+  simp [closedForm]
+
+/-- the element read (`*(&*iterator + offset)`, i.e. position `p + offset`) is the one `fixPos` names:
+    this is the form in which the property models use the filter iterator. -/
+theorem closedForm_target (m : Mode) (ashape fshape : List Nat) (p k off : List Int)
+    (hp : p.length = ashape.length) (hk : k.length = ashape.length) (hfl : fshape.length = ashape.length)
+    (h : closedForm m ashape fshape p k = some off) :
+    fixPos m ashape (addPos p (subPos k (centreOf fshape))) = some (addPos p off) := by
+  unfold closedForm at h
+  cases hq : fixPos m ashape (addPos p (subPos k (centreOf fshape))) with
+  | none => simp [hq] at h
+  | some q =>
+    simp only [hq, Option.map_some, Option.some.injEq] at h
+    have hc : (centreOf fshape).length = k.length := by simp [centreOf, hfl, hk]
+    have h1 : (subPos k (centreOf fshape)).length = p.length := by
+      rw [subPos_length k _ hc, hk, hp]
+    have h2 := fixPos_length m ashape _ q (by rw [addPos_length p _ h1, hp]) hq
+    rw [← h, addPos_subPos p q (by rw [h2, hp])]
+
+/-- on shapes with positive entries `fixPos` (the code's rule) is `specPos` (the specified rule) -/
+theorem fixPos_eq_specPos (m : Mode) : ∀ (s : List Nat) (q : List Int), (∀ d ∈ s, 0 < d) →
+    fixPos m s q = specPos m s q := by
+  intro s
+  induction s with
+  | nil => intro q _; cases q <;> rfl
+  | cons d ds ih =>
+    intro q hs
+    cases q with
+    | nil => rfl
+    | cons x xs =>
+      simp only [fixPos, specPos]
+      rw [fixOffset_eq_spec m x d (by have := hs d (by simp); omega),
+        ih xs (fun e he => hs e (by simp [he]))]
+
+end FilterIter
+
 /-! non-vacuity: a 1-D array of 5 under a filter of 3 (`nearest`): at the last position the third
     footprint element is clamped back onto the position itself; 2-D, filter larger than the array,
     `constant`: the element is flagged -/
